@@ -346,6 +346,14 @@ class Peer:
         self._neighbor = restart_neighbor
         self._delay.reset()
 
+        # The routes the new definition no longer has leave the Adj-RIB-Out now. Were they only withdrawn
+        # once the session is back (replace_restart), a route announced through the API in between would
+        # be withdrawn with them.
+        if restart_neighbor and restart_neighbor.rib:
+            previous = restart_neighbor.previous.routes if restart_neighbor.previous else []
+            restart_neighbor.rib.outgoing.replace_reload(previous, restart_neighbor.routes)
+            restart_neighbor.previous = None
+
     def reconfigure(self, restart_neighbor: 'Neighbor' | None = None) -> None:
         # we want to update the route which were in the configuration file
         self._neighbor = restart_neighbor
